@@ -36,6 +36,8 @@ type Scenario struct {
 	KeyCache    int      `json:"key_cache,omitempty"`
 	Methods     []string `json:"methods_on_one_parser,omitempty"` // entry "mixed"
 	Reset       bool     `json:"reset_between_docs,omitempty"`
+	SameTarget  bool     `json:"same_target_for_all_docs,omitempty"` // every document is unfolded into the one, never cleared target
+	DupKeys     bool     `json:"duplicate_keys,omitempty"`
 	Value       string   `json:"go_value,omitempty"`
 	UserFolders int      `json:"user_folders,omitempty"` // model.FolderOpts variant (encode mode)
 }
@@ -91,10 +93,18 @@ func unfoldAlias(c *simkit.Choices, x *simkit.Ctx) *simkit.Violation {
 			sc.Target = te.Name
 		}
 	}
+	sc.SameTarget = c.N(3) == 0
+	if sc.SameTarget && nd == 1 {
+		nd = 2
+	}
 	var docs [][]byte
 	var sources []interface{}
 	for i := 0; i < nd; i++ {
 		srcVal := te.Gen(c)
+		if i > 0 && sc.SameTarget && c.Bool() {
+			// the same value again: every key it brings is already in the target
+			srcVal = sources[c.N(len(sources))]
+		}
 		sources = append(sources, srcVal)
 		evs := reuse.RecordFold(srcVal)
 		if evs == nil {
@@ -110,6 +120,10 @@ func unfoldAlias(c *simkit.Choices, x *simkit.Ctx) *simkit.Violation {
 		if !ok {
 			st.Probe("value-not-representable")
 			return nil
+		}
+		if c.N(8) == 0 {
+			fv = model.DupMember(c, fv)
+			sc.DupKeys = true // (the exact round-trip ground truth does not apply: a target may keep both)
 		}
 		d := writeDoc(c, f, fv)
 		docs = append(docs, d)
@@ -151,15 +165,23 @@ func unfoldAlias(c *simkit.Choices, x *simkit.Ctx) *simkit.Violation {
 	}
 	simkit.SetCurrent(sc)
 	st.Eval(1)
-	st.Distinct(simkit.NewDigest().Str(string(f) + te.Name + sc.Entry).Str(fmt.Sprint(sc.Docs, sc.Cuts, sc.GCAt, sc.Reads, sc.Methods)).Int(sc.BufSize).Int(sc.KeyCache).Sum())
+	st.Distinct(simkit.NewDigest().Str(string(f) + te.Name + sc.Entry).Str(fmt.Sprint(sc.Docs, sc.Cuts, sc.GCAt, sc.Reads, sc.Methods, sc.SameTarget)).Int(sc.BufSize).Int(sc.KeyCache).Sum())
 
 	// benign reference: fresh instances, immutable input, whole buffer, no GC
 	var ref []interface{}
+	var refPtr interface{}
+	var refGet func() interface{}
 	for _, d := range docs {
 		var val interface{}
 		var err error
 		pi := simkit.Guard(func() {
 			ptr, _, get := te.NewTarget()
+			if sc.SameTarget {
+				if refPtr == nil {
+					refPtr, refGet = ptr, get
+				}
+				ptr, get = refPtr, refGet
+			}
 			u, e := gotype.NewUnfolder(ptr, model.UnfolderOpts(uv)...)
 			if e != nil {
 				err = e
@@ -177,7 +199,7 @@ func unfoldAlias(c *simkit.Choices, x *simkit.Ctx) *simkit.Violation {
 		// -> parser -> unfold, for the types whose round trip is exact on the
 		// pinned tree: a wrong pointer conversion on the fold or unfold side
 		// shows here even if it is wrong in the same way in every environment
-		if uv == 0 && te.ExactRoundTrip() && len(sources) == len(docs) && !model.DeepEqLooseZero(sources[len(ref)-1], val) {
+		if uv == 0 && !sc.SameTarget && !sc.DupKeys && te.ExactRoundTrip() && len(sources) == len(docs) && !model.DeepEqLooseZero(sources[len(ref)-1], val) {
 			return &simkit.Violation{Kind: "round-trip-value-differs", Site: string(f) + "/" + te.Name,
 				Detail: fmt.Sprintf("value -> Fold -> %s document -> Parse -> Unfold: source %s | result %s", f, model.Render(sources[len(ref)-1]), model.Render(val)), Scenario: sc}
 		}
@@ -185,6 +207,7 @@ func unfoldAlias(c *simkit.Choices, x *simkit.Ctx) *simkit.Violation {
 
 	// hostile run
 	type kept struct {
+		ptr  interface{}
 		get  func() interface{}
 		snap interface{}
 	}
@@ -235,6 +258,9 @@ func unfoldAlias(c *simkit.Choices, x *simkit.Ctx) *simkit.Violation {
 		for i, d := range docs {
 			failedDoc = i
 			ptr, _, get := te.NewTarget()
+			if sc.SameTarget && len(keep) > 0 {
+				ptr, get = keep[0].ptr, keep[0].get
+			}
 			if err := u.SetTarget(ptr); err != nil {
 				runErr = err
 				return
@@ -293,7 +319,7 @@ func unfoldAlias(c *simkit.Choices, x *simkit.Ctx) *simkit.Violation {
 			if runErr != nil {
 				return
 			}
-			keep = append(keep, kept{get: get, snap: model.DeepCopy(get())})
+			keep = append(keep, kept{ptr: ptr, get: get, snap: model.DeepCopy(get())})
 			if sc.Reset {
 				u.Reset()
 			}
@@ -328,7 +354,13 @@ func unfoldAlias(c *simkit.Choices, x *simkit.Ctx) *simkit.Violation {
 	if len(docs) > 1 {
 		st.Fault("same-parser-and-unfolder-reused")
 	}
+	if sc.SameTarget {
+		st.Fault("target-not-cleared-between-documents")
+	}
 	for i, k := range keep {
+		if sc.SameTarget && i < len(keep)-1 {
+			continue // superseded states of the one target
+		}
 		now := k.get()
 		x.ObserveStr(model.Render(now))
 		if !model.DeepEq(k.snap, now) {
